@@ -19,6 +19,7 @@ import subprocess
 import tempfile
 import signal
 import importlib
+import random
 
 from contextlib import redirect_stdout
 from contextlib import contextmanager
@@ -67,6 +68,17 @@ def redirect_stdin(stream):
     sys.stdin = stream
     yield
     sys.stdin = old_stdin
+
+
+class SeedAction(argparse.Action):
+    """Seed the random generator as soon as the seed option is parsed
+
+    Graph arguments are built while the command line is being parsed,
+    hence the generator must be seeded before the parser reaches them.
+    """
+    def __call__(self, parser, namespace, value, option_string=None):
+        setattr(namespace, self.dest, value)
+        random.seed(value)
 
 
 def setup_SIGINT():
